@@ -307,6 +307,9 @@ type Options struct {
 	Opts []syncer.Option
 	// UID fixes the gateway unique id (8 bytes derived from the scenario seed).
 	UID gateway.UniqueID
+	// Unobserved: the syncer talks to the manager directly, without the recording wrapper (whose lock serialises
+	// the calls of one node); such a node is judged only by its final state.
+	Unobserved bool
 }
 
 // NewChain returns a manager at genesis that has been fed the path to n.
@@ -361,7 +364,11 @@ func Start(name, ip string, env *chaingen.Env, store *chain.DBStore, cm *chain.M
 		syncer.WithRPCTimeout(10 * time.Second),
 	}
 	opts = append(opts, o.Opts...)
-	n.S = syncer.New(l, n.Rec, n.PS, gateway.Header{GenesisID: env.Genesis.ID(), UniqueID: n.UID, NetAddress: l.Addr().String()}, opts...)
+	var scm syncer.ChainManager = n.Rec
+	if o.Unobserved {
+		scm = inner
+	}
+	n.S = syncer.New(l, scm, n.PS, gateway.Header{GenesisID: env.Genesis.ID(), UniqueID: n.UID, NetAddress: l.Addr().String()}, opts...)
 	go func() { n.done <- n.S.Run() }()
 	return n, nil
 }
@@ -436,8 +443,11 @@ func (n *Node) Tips() []types.ChainIndex {
 // Panics returns the messages of recovered handler panics (the syncer logs them at error level).
 func (n *Node) Panics() []string {
 	var out []string
+	// recognised by structure: the syncer logs a recovered handler panic at error level with a stack trace
+	// attached (a field named "stack"); the wording of the message is only a fallback
 	for _, e := range n.Logs.All() {
-		if strings.Contains(e.Message, "panic") {
+		_, hasStack := e.ContextMap()["stack"]
+		if hasStack || strings.Contains(e.Message, "panic") {
 			out = append(out, fmt.Sprintf("%s %v", e.Message, e.ContextMap()))
 		}
 	}
